@@ -15,6 +15,52 @@ def _calls(f, name):
     return [n for n in ast.walk(f.node) if isinstance(n, ast.Call) and ast.unparse(n.func) == name]
 
 
+class _Inline(ast.NodeTransformer):
+    def __init__(self, env):
+        self.env = env
+
+    def visit_Assign(self, node):
+        if len(node.targets) == 1 and isinstance(node.targets[0], ast.Name) and node.targets[0].id in self.env:
+            return None             # the definition itself disappears: its value lives on at the use sites
+        return self.generic_visit(node)
+
+    def visit_Name(self, node):
+        if isinstance(node.ctx, ast.Load) and node.id in self.env:
+            import copy
+            return self.visit(copy.deepcopy(self.env[node.id]))
+        return node
+
+
+def inline_locals(func_node):
+    """a copy of the function in which every local that is assigned exactly once (to an expression, outside loops) is replaced
+    by that expression at its uses - `x = f(a); return g(x)` and `return g(f(a))` then look the same to the pass-through rules"""
+    import copy
+    fn = copy.deepcopy(func_node)
+    counts, vals = {}, {}
+    for n in ast.walk(fn):
+        if isinstance(n, ast.Assign) and len(n.targets) == 1 and isinstance(n.targets[0], ast.Name):
+            counts[n.targets[0].id] = counts.get(n.targets[0].id, 0) + 1
+            vals[n.targets[0].id] = n.value
+        elif isinstance(n, (ast.For, ast.AugAssign, ast.With)):
+            tg = n.target if not isinstance(n, ast.With) else None
+            for x in ast.walk(tg) if tg is not None else []:
+                if isinstance(x, ast.Name):
+                    counts[x.id] = counts.get(x.id, 0) + 2
+    params = {a.arg for a in fn.args.args + fn.args.kwonlyargs}
+    env = {k: v for k, v in vals.items() if counts.get(k) == 1 and k not in params}
+    return _Inline(env).visit(fn)
+
+
+class _F:
+    """a function with inlined locals, presented like srcmodel.Func to the helpers below"""
+
+    def __init__(self, f):
+        self.node, self.qual, self._f, self.params, self.module = inline_locals(f.node), f.qual, f, f.params, f.module
+
+    def loc(self, node=None):
+        return self._f.loc()
+
+
 def run(ck, ctx):
     m = ctx.model
     ck.explanation = (
@@ -26,13 +72,19 @@ def run(ck, ctx):
         "a file argument calls the API once, a directory argument once per accepted file, and the extension test looks at the "
         "last extension and accepts sql / ddl / hql / bql.")
     # ---- parse_from_file
-    pf = m.func("simple_ddl_parser.ddl_parser:parse_from_file")
+    pf = _F(m.func("simple_ddl_parser.ddl_parser:parse_from_file"))
     params = pf.params
     ck.ob("T-PASS", "parse_from_file(file_path, encoding='utf-8', parser_settings=None, **kwargs)",
           params[:3] == ["file_path", "encoding", "parser_settings"] and pf.node.args.kwarg is not None, str(params), pf.loc())
-    body = [s for s in pf.node.body if not (isinstance(s, ast.Expr) and isinstance(s.value, ast.Constant))]
-    ck.ob("T-PASS", "parse_from_file is one `with open(...)` statement (no state kept between calls)",
-          len(body) == 1 and isinstance(body[0], ast.With), f"{len(body)} statement(s)", pf.loc())
+    stateful = [n for n in ast.walk(pf.node) if isinstance(n, (ast.Global, ast.Nonlocal))]
+    for n in ast.walk(pf.node):
+        if isinstance(n, ast.Name) and n.id in pf.module.assigns and n.id not in ("List", "Dict", "Optional"):
+            stateful.append(n)          # a module-level value consulted by the function: a cache or registry
+        if isinstance(n, (ast.Attribute, ast.Subscript)) and isinstance(n.ctx, ast.Store) and not (
+                isinstance(n.value, ast.Name) and n.value.id in ("self",)):
+            stateful.append(n)
+    ck.ob("T-PASS", "parse_from_file keeps no state between calls (no global, no module-level value, no attribute / item store)",
+          not stateful, f"{[ast.unparse(x)[:40] for x in stateful][:3]}", pf.loc())
     opens = _calls(pf, "open")
     ck.ob("T-PASS", "one open() call", len(opens) == 1, "", pf.loc())
     for o in opens:
@@ -62,8 +114,9 @@ def run(ck, ctx):
         stars = [ast.unparse(k.value) for k in r.keywords if k.arg is None]
         ck.ob("T-PASS", ".run(file_path=file_path, **kwargs) on the constructed parser", r.func.value in ctor and kw == {"file_path": "file_path"}
               and stars == ["kwargs"] and not r.args, ast.unparse(r)[:90], pf.loc(r))
-        par = S.stmt_of(pf, r)
-        ck.ob("T-PASS", "the run() result is returned as is", isinstance(par, ast.Return) and par.value is r, ast.unparse(par)[:60], pf.loc(par))
+        rets = [x for x in ast.walk(pf.node) if isinstance(x, ast.Return)]
+        ck.ob("T-PASS", "the run() result is returned as is", len(rets) == 1 and rets[0].value is r,
+              ast.unparse(rets[0])[:60] if rets else "no return", pf.loc())
     # ---- run(): dump branch
     run_f = m.parser_method("run")
     dumps = _calls(run_f, "dump_data_to_file")
